@@ -198,6 +198,36 @@ func ruleC07R2(r *Run) {
 					}
 					if l, ok := kv.(*ssa.Lookup); ok {
 						idLeaves = p.Leaves(l.Index, provOpts{ParamDepth: 2})
+						// the alias of a stream that is not registered is the zero value, which is a valid alias of
+						// another stream: the lookup must be the comma-ok form and the delete confined to its found edge
+						found := false
+						if l.CommaOk {
+							allInstrs(fn, func(x ssa.Instruction) {
+								ifs, isIf := x.(*ssa.If)
+								if !isIf {
+									return
+								}
+								cond := ifs.Cond
+								neg := false
+								if u, isU := cond.(*ssa.UnOp); isU && u.Op == token.NOT {
+									cond, neg = u.X, true
+								}
+								ex, isEx := cond.(*ssa.Extract)
+								if !isEx || ex.Index != 1 || ex.Tuple != ssa.Value(l) {
+									return
+								}
+								okEdge := ifs.Block().Succs[0]
+								if neg {
+									okEdge = ifs.Block().Succs[1]
+								}
+								if edgeDominates(ifs.Block(), okEdge, c.Block()) {
+									found = true
+								}
+							})
+						}
+						if !found {
+							bad = append(bad, "the alias used as key comes from a lookup whose not-found case is not excluded (a missing stream yields alias 0, which belongs to another stream)")
+						}
 					}
 				}
 				if !hasLeafPrefix(idLeaves, "field:/message.") || !strings.HasSuffix(strings.Join(idLeaves, " "), "") {
